@@ -50,10 +50,14 @@ pub struct Action {
     /// milliseconds (or until the client hangs up), then close: a server that stalls mid-transfer
     #[serde(default)]
     pub stall_ms: u32,
+    /// chunked transfer encoding: close the connection after the last data chunk WITHOUT the terminating zero-length
+    /// chunk (a connection cut exactly at the end of the body: every requested byte has arrived)
+    #[serde(default)]
+    pub omit_last_chunk: bool,
 }
 impl Default for Action {
     fn default() -> Self {
-        Action { status: 206, body: Body::Range, cut_after: None, drop: false, pieces: vec![], chunked: false, pace_us: 0, declared_len: None, redirect_self: false, stall_ms: 0 }
+        Action { status: 206, body: Body::Range, cut_after: None, drop: false, pieces: vec![], chunked: false, pace_us: 0, declared_len: None, redirect_self: false, stall_ms: 0, omit_last_chunk: false }
     }
 }
 
@@ -249,7 +253,7 @@ fn handle(mut s: TcpStream, data: &Arc<Vec<u8>>, script: &Script, index: usize, 
             }
         }
     }
-    if action.chunked && action.cut_after.map(|c| c >= body.len()).unwrap_or(true) && ok {
+    if action.chunked && action.cut_after.map(|c| c >= body.len()).unwrap_or(true) && ok && !action.omit_last_chunk {
         let _ = s.write_all(b"0\r\n\r\n");
     }
     let _ = s.flush();
